@@ -40,7 +40,7 @@ func main() {
 			return 8
 		},
 		Floors: func(t string) map[string]int64 {
-			return map[string]int64{"connections": 4000, "probe_served_after_partial_read": 300, "stop_points_enumerated": 1000, "stall_cases_handler_finished": 300, "loopback_connections_netpoll": 300}
+			return map[string]int64{"connections": 4000, "probe_served_after_partial_read": 300, "stop_points_enumerated": 1000, "stall_cases_handler_finished": 300, "aborted_connections": 1000, "loopback_connections_netpoll": 300}
 		},
 		Work: work,
 	})
@@ -177,6 +177,42 @@ func work(w *mon.W) {
 		}
 	})
 	w.Cases("stall", uint64(w.Pick(4000, 100000)), func(c *mon.Case) { stallCase(w, c, e, st) })
+	// after-abort: first a connection whose peer vanishes in the middle of a streamed body
+	// that the handler read only partly (draining it fails), then — on a new connection of
+	// the same engine, which recycles the pooled stream objects — an ordinary case
+	w.Cases("after-abort", uint64(w.Pick(4000, 100000)), func(c *mon.Case) {
+		r := c.R
+		id := c.G*1000 + 999
+		L := r.Int(20, 100, 5000, 9000, 20000)
+		chunked := r.Bool()
+		stop := 1 + r.Intn(L-1)
+		_, reqWire, _ := buildBody(r, id, L, chunked, nil, stop, false)
+		// cut the stream somewhere after the head, inside the body
+		head := bytes.Index(reqWire, []byte("\r\n\r\n")) + 4
+		cut := head + r.Intn(len(reqWire)-head)
+		st.mu.Lock()
+		st.cur, st.got, st.gotErr, st.paths, st.done, st.hasDone = plan{readSizes: []int{r.Int(1, 7, 100, 4096)}, stopAfter: r.Intn(stop + 1)}, nil, nil, nil, nil, false
+		st.mu.Unlock()
+		sc := sconn.New([][]byte{reqWire[:cut]}, sconnEnd(r))
+		res := rig.Serve(e, sc, r.Int(4096, 100, 8192), false, 15*time.Second)
+		w.Count("aborted_connections", 1)
+		if res.Hang {
+			c.Violate("hang", "Serve did not finish on a truncated stream")
+			return
+		}
+		if res.Panic != nil {
+			c.Violate(mon.PanicKey(res.Stack), "panic on a truncated stream: %v", res.Panic)
+			return
+		}
+		oneConn(w, c, e, st, nil, nil)
+	})
+}
+
+func sconnEnd(r *mon.Rand) sconn.End {
+	if r.Bool() {
+		return sconn.Reset
+	}
+	return sconn.EOF
 }
 
 type fixed struct {
